@@ -15,6 +15,7 @@ ENGINES = [
 ]
 
 HARNESSES = {
+    'C17': [dict(name='c17_simplify', src=['C17_simplify.cpp'], flavour='asan')],
     'C02': [dict(name='c02_control', src=['C02_control.cpp'], flavour='asan')],
     'C20': [dict(name='c20_repro', src=['C20_repro.cpp'], flavour='asan')],
     'C04': [dict(name='c04_costs', src=['C04_costs.cpp'], flavour='asan')],
@@ -44,6 +45,14 @@ DBE_NOTE = ('Trusted: the choice oracle (hook H1 + sampler-allocator seam) reall
             'g++/ASan build of libompl. Bounded: deviation bound D over the first N choice points, lattice samples, the listed worlds/configurations; silent beyond.')
 
 PROPERTY_META = {
+    'C17': dict(
+        deadline_quick=420, deadline_thorough=1700, engine='E1-DBE', design_ref='5/C17',
+        technique='exhaustive enumeration of all short valid waypoint paths x routines x parameters x deviation-bounded answer streams of the routines\' random draws; exhaustive counts for densification; all small sets for hybridization',
+        level_text='4 worlds: every sequence of 2..4 (thorough 5) waypoints with valid segments (repeated states, zero-length segments) through reduceVertices, partial/rope shortcut, '
+                   'collapseCloseVertices, smoothBSpline, perturbPath, findBetterGoal, simplify, simplifyMax under 3 parameter settings and every answer stream with <= D deviations among the first '
+                   'N draws: end points, bounds, dense validity, no lengthening / no worse own objective, success => check(). interpolate(count) for every count, interpolate(), subdivide(); '
+                   'hybridization of all sets of <= 3 recorded paths.',
+        level_note=DBE_NOTE),
     'C02': dict(
         deadline_quick=300, deadline_thorough=1500, engine='E1-DBE', design_ref='5/C02',
         technique='deviation-bounded exhaustive exploration of every random answer, state sample and control sample of the real control planners; oracle re-propagates every segment with an independent copy of the system',
